@@ -6,169 +6,367 @@ import (
 	"brvharness/internal/hx"
 )
 
+// The generator keeps an approximate picture of which headers the repository will accept (alive) so
+// that most submissions are valid and forks actually happen, plus a separate adversarial stream
+// (orphans, duplicates, out-of-order arrival, too-deep forks, children of refused headers).
+
 type gnode struct {
 	id, prev, height int
 	time             uint32
+	alive            bool
+	kids             int // alive children
 }
 
 type gstate struct {
 	r       *hx.Rng
-	nodes   []gnode
-	byID    map[int]int
+	nodes   []*gnode
+	byID    map[int]*gnode
 	next    int
-	focus   int // id currently being extended
+	focus   int
 	maxd    int
-	saved   bool
+	best    int
+	saved   []bool // alive snapshot at the last save
+	savedN  int
+	savedB  int
+	hasSave bool
 	marked  []int
-	profile string
+	forks   int // branches started so far (kept ≤ 11: Go's sort is only a stable insertion sort up to 12 elements)
 }
 
-var bitsClasses = []uint32{0x1d00ffff, 0x1c00ffff, 0x1d00aaaa, 0x207fffff}
+var bitsClasses = []uint32{0x1d00ffff, 0x1c00ffff, 0x1d00aaaa, 0x207fffff, 0x1d800000, 0x03000000, 0x00123456, 0x21010000, 0x01010000, 0x02000100}
 
-func (g *gstate) newHdr(prev int) int {
+func (g *gstate) def(prev int) *gnode {
 	id := g.next
 	g.next++
 	ph, pt := 0, uint32(1296688602)
-	if i, ok := g.byID[prev]; ok {
-		ph, pt = g.nodes[i].height, g.nodes[i].time
+	palive := false
+	if p, ok := g.byID[prev]; ok {
+		ph, pt, palive = p.height, p.time, p.alive
 	}
-	bits := bitsClasses[g.r.Pick(70, 10, 10, 10)]
-	n := gnode{id: id, prev: prev, height: ph + 1, time: pt + 600}
-	g.byID[id] = len(g.nodes)
+	n := &gnode{id: id, prev: prev, height: ph + 1, time: pt + 600}
+	_ = palive
+	g.byID[id] = n
 	g.nodes = append(g.nodes, n)
+	bits := bitsClasses[g.r.Pick(680, 100, 100, 100, 4, 4, 4, 4, 4, 4)]
 	fmt.Printf("hdr id=%d prev=%d bits=%d time=%d\n", id, prev, bits, n.time)
-	return id
+	return n
 }
 
-func (g *gstate) sub(id int) { fmt.Printf("sub id=%d\n", id) }
+// sub prints the submission and updates the acceptance estimate.
+func (g *gstate) sub(id int) {
+	fmt.Printf("sub id=%d\n", id)
+	n, ok := g.byID[id]
+	if !ok || n.alive {
+		return
+	}
+	p, ok := g.byID[n.prev]
+	if !ok || !p.alive {
+		return
+	}
+	for _, m := range g.marked {
+		if m == id {
+			return
+		}
+	}
+	if p.kids > 0 && g.best-p.height > g.maxd {
+		return // a new branch deeper than the limit
+	}
+	n.alive = true
+	if p.kids > 0 {
+		g.forks++
+	}
+	p.kids++
+	if n.height > g.best {
+		g.best = n.height
+	}
+}
 
-func (g *gstate) randomNode() int {
-	// weighted to recently defined headers
+func (g *gstate) pick(aliveOnly bool) int {
 	n := len(g.nodes)
-	switch g.r.Pick(50, 30, 20) {
-	case 0:
-		k := 1 + g.r.Intn(6)
-		if k > n {
-			k = n
+	if g.forks >= 11 {
+		// no more forks: only alive tips
+		var tips []int
+		for _, c := range g.nodes {
+			if c.alive && c.kids == 0 {
+				tips = append(tips, c.id)
+			}
 		}
-		return g.nodes[n-k].id
-	case 1:
-		k := 1 + g.r.Intn(25)
-		if k > n {
-			k = n
+		if len(tips) > 0 {
+			return tips[g.r.Intn(len(tips))]
 		}
-		return g.nodes[n-k].id
 	}
-	return g.nodes[g.r.Intn(n)].id
+	for try := 0; try < 8; try++ {
+		var c *gnode
+		switch g.r.Pick(50, 30, 20) {
+		case 0:
+			k := 1 + g.r.Intn(6)
+			if k > n {
+				k = n
+			}
+			c = g.nodes[n-k]
+		case 1:
+			k := 1 + g.r.Intn(25)
+			if k > n {
+				k = n
+			}
+			c = g.nodes[n-k]
+		default:
+			c = g.nodes[g.r.Intn(n)]
+		}
+		if c.alive || !aliveOnly {
+			return c.id
+		}
+	}
+	return g.nodes[0].id
 }
 
-func (g *gstate) maintenance() {
-	switch g.r.Pick(35, 15, 20, 15, 15) {
-	case 0:
-		d := g.maxd + 2 + g.r.Intn(6)
-		fmt.Printf("cleand d=%d\n", d)
-	case 1:
-		fmt.Println("clean")
-	case 2:
-		fmt.Println("save")
-		g.saved = true
-	case 3:
-		if !g.saved {
-			fmt.Println("save")
-			g.saved = true
-		}
-		fmt.Println("load")
-	case 4:
-		if !g.saved {
-			fmt.Println("save")
-			g.saved = true
-		}
-		fmt.Printf("loadd d=%d\n", g.maxd+2+g.r.Intn(8))
+func (g *gstate) kill(id int) {
+	n := g.byID[id]
+	if n == nil || !n.alive {
+		return
 	}
+	n.alive = false
+	if p := g.byID[n.prev]; p != nil && p.kids > 0 {
+		p.kids--
+	}
+	for _, c := range g.nodes {
+		if c.prev == id {
+			g.kill(c.id)
+		}
+	}
+}
+
+func (g *gstate) snapshot() {
+	g.saved = make([]bool, len(g.nodes))
+	for i, n := range g.nodes {
+		g.saved[i] = n.alive
+	}
+	g.savedB = g.best
+	g.hasSave = true
+}
+
+func (g *gstate) restore() {
+	for i, n := range g.nodes {
+		n.alive = i < len(g.saved) && g.saved[i]
+		n.kids = 0
+	}
+	if !g.hasSave {
+		g.nodes[0].alive = true
+	}
+	g.best = 0
+	for _, n := range g.nodes {
+		if n.alive {
+			if p := g.byID[n.prev]; p != nil {
+				p.kids++
+			}
+			if n.height > g.best {
+				g.best = n.height
+			}
+		}
+	}
+	if !g.byID[g.focus].alive {
+		g.focus = 0
+		for _, n := range g.nodes {
+			if n.alive && n.height == g.best {
+				g.focus = n.id
+			}
+		}
+	}
+}
+
+func (g *gstate) depth() int { return g.maxd + 2 + g.r.Intn(6) }
+
+func (g *gstate) cleanOp(withDumps bool) {
+	if withDumps {
+		fmt.Println("dump")
+	}
+	if g.r.Chance(70) {
+		fmt.Printf("cleand d=%d\n", g.depth())
+	} else {
+		fmt.Println("clean")
+	}
+	if withDumps {
+		fmt.Println("dump")
+	}
+}
+
+func (g *gstate) saveLoadOp(withDumps bool) {
+	if withDumps {
+		fmt.Println("dump")
+	}
+	fmt.Println("save")
+	g.snapshot()
+	if g.r.Chance(50) {
+		fmt.Println("load")
+	} else {
+		fmt.Printf("loadd d=%d\n", g.depth())
+	}
+	g.restore()
+	if withDumps {
+		fmt.Println("dump")
+	}
+}
+
+func (g *gstate) crashOp() {
+	switch g.r.Pick(50, 35, 15) {
+	case 0:
+		fmt.Printf("crashsave ld=%d\n", g.depth()+g.r.Intn(10))
+		g.snapshot()
+	case 1:
+		fmt.Printf("crashclean d=%d ld=%d\n", g.depth(), g.depth()+g.r.Intn(10))
+	case 2:
+		fmt.Println("crashclean")
+	}
+}
+
+func (g *gstate) refuseOp() {
+	// an adversarial submission between two dumps: the second dump must equal the first when refused
+	fmt.Println("dump")
+	switch g.r.Pick(25, 25, 25, 15, 10) {
+	case 0: // orphan
+		n := g.def(5000 + g.r.Intn(50))
+		g.sub(n.id)
+	case 1: // duplicate of any known header
+		g.sub(g.pick(true))
+	case 2: // fork far below the tip (too deep unless maxd is large)
+		if g.forks >= 11 {
+			break
+		}
+		n := g.def(g.nodes[g.r.Intn(1+len(g.nodes)/3)].id)
+		g.sub(n.id)
+	case 3: // child of a refused header
+		n := g.def(g.pick(false))
+		g.sub(n.id)
+	case 4: // fork exactly at / one beyond the limit
+		want := g.best - g.maxd - g.r.Intn(2)
+		for _, c := range g.nodes {
+			if g.forks >= 11 {
+				break
+			}
+			if c.alive && c.height == want && c.kids > 0 {
+				n := g.def(c.id)
+				g.sub(n.id)
+				break
+			}
+		}
+	}
+	fmt.Println("dump")
 }
 
 func gen(seed uint64, scripts int, tier string, profile string) {
 	r := hx.NewRng(seed)
 	for si := 0; si < scripts; si++ {
-		g := &gstate{r: r, byID: map[int]int{}, next: 1, profile: profile}
+		g := &gstate{r: r, byID: map[int]*gnode{}, next: 1}
 		g.maxd = []int{0, 1, 2, 5, 144}[r.Pick(10, 15, 20, 20, 35)]
 		fmt.Printf("init net=test maxdepth=%d diff=off split=on\n", g.maxd)
-		g.nodes = append(g.nodes, gnode{id: 0, prev: -1, height: 0, time: 1296688602})
-		g.byID[0] = 0
-		nops := 15 + r.Intn(60)
+		root := &gnode{id: 0, prev: -1, height: 0, time: 1296688602, alive: true}
+		g.nodes = append(g.nodes, root)
+		g.byID[0] = root
+		nops := 15 + r.Intn(50)
 		if tier == "thorough" {
-			nops = 30 + r.Intn(250)
+			nops = 30 + r.Intn(220)
 		}
-		pMaint, pMark, pLoc := 0, 0, 0
+		pClean, pSL, pCrash, pMark, pLoc, pRefuse := 0, 0, 0, 0, 0, 0
 		switch profile {
-		case "maint":
-			pMaint = 10
+		case "clean":
+			pClean = 9
+		case "saveload":
+			pSL, pClean = 8, 3
+		case "crash":
+			pCrash, pClean, pSL = 8, 2, 1
 		case "mark":
-			pMark = 6
-			pMaint = 3
+			pMark, pClean, pSL = 7, 2, 2
 		case "loc":
-			pLoc = 10
-			pMaint = 4
+			pLoc, pClean = 10, 3
+		case "refuse":
+			pRefuse, pClean = 10, 2
 		case "mixed":
-			pMaint, pMark, pLoc = 7, 2, 3
+			pClean, pSL, pCrash, pMark, pLoc, pRefuse = 4, 3, 1, 2, 3, 2
 		}
 		for i := 0; i < nops; i++ {
-			switch r.Pick(50, 12, 12, 4, 3, 3, pMaint, pMark, pLoc, 4, 1) {
+			switch r.Pick(46, 10, 12, 3, 2, 3, pClean, pSL, pCrash, pMark, pLoc, pRefuse, 3, 1) {
 			case 0: // extend the focus chain
-				id := g.newHdr(g.focus)
-				g.sub(id)
-				g.focus = id
-			case 1: // move focus to another header (next extension forks there or continues a side tip)
-				g.focus = g.randomNode()
+				n := g.def(g.focus)
+				g.sub(n.id)
+				g.focus = n.id
+			case 1: // move focus (next extension forks there or continues a side tip)
+				g.focus = g.pick(true)
 			case 2: // burst on a fresh fork: may overtake
-				p := g.randomNode()
+				p := g.pick(true)
 				k := 1 + r.Intn(5)
 				for j := 0; j < k; j++ {
-					id := g.newHdr(p)
-					g.sub(id)
-					p = id
+					n := g.def(p)
+					g.sub(n.id)
+					p = n.id
 				}
-				if r.Chance(50) {
+				if r.Chance(50) && g.byID[p].alive {
 					g.focus = p
 				}
-			case 3: // duplicate of a known header
-				g.sub(g.randomNode())
-			case 4: // orphan: parent never defined
-				id := g.newHdr(5000 + r.Intn(50))
-				g.sub(id)
+			case 3: // duplicate
+				g.sub(g.pick(false))
+			case 4: // orphan
+				n := g.def(5000 + r.Intn(50))
+				g.sub(n.id)
 			case 5: // out of order: grandchild before child
-				c := g.newHdr(g.focus)
-				gc := g.newHdr(c)
-				g.sub(gc)
-				g.sub(c)
-				g.sub(gc)
-				g.focus = gc
+				c := g.def(g.focus)
+				gc := g.def(c.id)
+				g.sub(gc.id)
+				g.sub(c.id)
+				g.sub(gc.id)
+				if gc.alive {
+					g.focus = gc.id
+				}
 			case 6:
-				g.maintenance()
+				g.cleanOp(profile == "clean" || r.Chance(50))
 			case 7:
-				if len(g.marked) > 0 && r.Chance(35) {
+				g.saveLoadOp(profile == "saveload" || r.Chance(50))
+			case 8:
+				g.crashOp()
+			case 9:
+				if len(g.marked) > 0 && r.Chance(40) {
 					k := r.Intn(len(g.marked))
-					fmt.Printf("unmark id=%d\n", g.marked[k])
+					id := g.marked[k]
 					g.marked = append(g.marked[:k], g.marked[k+1:]...)
+					fmt.Printf("unmark id=%d\n", id)
+					if r.Chance(70) {
+						g.sub(id) // acceptable again
+					}
 				} else {
-					id := g.randomNode()
+					id := g.pick(true)
 					if r.Chance(10) {
 						id = 6000 + r.Intn(10) // not yet seen
 					}
 					if id != 0 {
+						fmt.Println("dump")
 						fmt.Printf("mark id=%d\n", id)
 						g.marked = append(g.marked, id)
+						g.kill(id)
+						g.best = 0
+						for _, n := range g.nodes {
+							if n.alive && n.height > g.best {
+								g.best = n.height
+							}
+						}
+						if !g.byID[g.focus].alive {
+							g.focus = g.pick(true)
+						}
+						fmt.Println("dump")
+						if r.Chance(50) {
+							g.sub(id) // must be refused as marked invalid
+						}
 					}
 				}
-			case 8:
+			case 10:
 				if r.Chance(20) {
 					fmt.Println("vloc")
 				} else {
 					fmt.Printf("loc max=%d\n", []int{1, 2, 3, 10, 50}[r.Intn(5)])
 				}
-			case 9:
+			case 11:
+				g.refuseOp()
+			case 12:
 				fmt.Println("dump")
-			case 10:
+			case 13:
 				fmt.Println("subscribe")
 			}
 		}
